@@ -5,6 +5,8 @@ import GeonumModel.Lemmas.GeonumAdd
 import GeonumModel.Spec.RealWitness
 import GeonumModel.Lemmas.ExactAdd
 import GeonumModel.Lemmas.GradeAngle
+import GeonumModel.Lemmas.FloatSumBlade
+import GeonumModel.Spec.RoundWitness
 
 set_option linter.unusedSectionVars false
 set_option linter.unusedVariables false
@@ -190,6 +192,26 @@ theorem general_policy_real {a b : Geonum ℝ} (ha : a.angle.Inv) (hb : b.angle.
 
 end E
 
+section B
+variable {F : Type} [FloatSpec F]
+
+/-- (B) **the general regime in rounded arithmetic**: for canonical operands with magnitudes in the C01 domain and combined blade
+    count `cb ≤ 2^39`, in every case that is neither "identical angles" nor "a half turn apart", `cb ≤ blade(a+b) ≤ cb + 4` —
+    history is never lost and at most one full turn is gained — and the full turn is reached only with a remainder of at most
+    `1e-10 + (48·cb + 200)·2⁻⁵³`.  For small `cb` that is the snap width (the property's "only with remainder 0" up to the
+    library's own tolerance); the bound grows with `cb`, which is exactly known finding `C14-large-blade-turn` (for blade sums
+    around 1e5 and above the f64 product `cb·π/2` carries an error that can exceed the snap, and the code then lands a full turn up
+    with a visible remainder).  True of both witnesses of the contract, in particular of the rounding arithmetic `R64`. -/
+theorem general_blade_float {a b : Geonum F} (ha : a.angle.Inv) (hb : b.angle.Inv) (hma : a.MagDom) (hmb : b.MagDom)
+    (hcb : a.angle.blade + b.angle.blade ≤ 2 ^ 39) (h1 : sameAngle a b = false) (h2 : oppositeAngle a b = false) :
+    a.angle.blade + b.angle.blade ≤ (a.add b).angle.blade ∧
+    (a.add b).angle.blade ≤ a.angle.blade + b.angle.blade + 4 ∧
+    ((a.add b).angle.blade = a.angle.blade + b.angle.blade + 4 →
+      val (a.add b).angle.rem ≤ val (e10 : F) + (48 * ((a.angle.blade + b.angle.blade : ℕ) : ℝ) + 200) * (1 / 2 ^ 53) + 1 / 10 ^ 298) :=
+  add_general_blade_float ha hb hma hmb hcb h1 h2
+
+end B
+
 /-! (the symmetry clause — blade history identical for a+b and b+a — is now proved in every branch: `special_branches_blade_symmetric`,
     `general_branch_angle_symmetric`) -/
 
@@ -200,5 +222,21 @@ example : sameAngle (⟨(1:ℝ), ⟨(0.5:ℝ), 3⟩⟩ : Geonum ℝ) ⟨2, ⟨0.
     simp only [sub_self, abs_zero, decide_eq_true_eq]
     exact val_e15_pos (F := ℝ)
   simp [this]
+
+
+/-! ### R — on the arithmetic that really rounds (`R64`: round-to-nearest on the binary64 grid, correctly rounded libm); no hypothesis
+    about the arithmetic is left -/
+section R
+
+/-- (R) the general regime of the blade-history policy for all pairs of binary64 numbers in the domain -/
+theorem general_blade_rounded {a b : Geonum R64} (ha : a.angle.Inv) (hb : b.angle.Inv) (hma : a.MagDom) (hmb : b.MagDom)
+    (hcb : a.angle.blade + b.angle.blade ≤ 2 ^ 39) (h1 : sameAngle a b = false) (h2 : oppositeAngle a b = false) :
+    a.angle.blade + b.angle.blade ≤ (a.add b).angle.blade ∧
+    (a.add b).angle.blade ≤ a.angle.blade + b.angle.blade + 4 ∧
+    ((a.add b).angle.blade = a.angle.blade + b.angle.blade + 4 →
+      (a.add b).angle.rem.v ≤ (e10 : R64).v + (48 * ((a.angle.blade + b.angle.blade : ℕ) : ℝ) + 200) * (1 / 2 ^ 53) + 1 / 10 ^ 298) :=
+  general_blade_float (F := R64) ha hb hma hmb hcb h1 h2
+
+end R
 
 end GeonumModel.C14
